@@ -2,7 +2,7 @@
 from propslib import fn_scope
 
 PROP = dict(
-    extract=["bopomofo", "syllable"],      # the fuzzy search predicate of the walk driver uses the C13 model
+    extract=["bopomofo", "syllable", "estimate"],      # the fuzzy search predicate of the walk driver uses the C13 model
     lean_targets=["Chewing.Props.C12"],
     runs=[dict(bin="legacy", timeout=900), dict(bin="corrupt", timeout=1500, timeout_thorough=6000)],
     scope=fn_scope("loader start", "loader cstart", "walk lookup", "walk entries"),
@@ -28,6 +28,8 @@ PROP = dict(
         "known finding F17: a zero syllable at a non-first child position panics entries() (entries_no_panic_refuted)",
         "known finding F39 (dictionary-file form): an entry under the empty key makes every conversion abort (oracle only: the "
         "conversion engine is not part of this model)",
+        "known finding F40: a stored phrase frequency within reach of u32::MAX aborts the first commit that learns the phrase "
+        "(add with overflow in estimate.rs, overflow-check profile); witness at the level of C08's estimate model",
         "swkb.dat / symbols.dat loaders and the SQLite user dictionary are not covered",
     ],
 )
